@@ -47,6 +47,13 @@ PRIMITIVES = [
     ({"type": "string", "nullable": True, "minLength": 3}, "abcd"),
 ]
 
+# one anchored atom without a quantifier next to length keywords (only for the checks that ask for them)
+UNQUANTIFIED_ATOMS = [
+    ({"type": "string", "pattern": "^[a-z]$", "maxLength": 5}, "q"),
+    ({"type": "string", "pattern": "^\\d$", "minLength": 1, "maxLength": 4}, "7"),
+    ({"type": "string", "pattern": "^k$", "maxLength": 3}, "k"),
+]
+
 ARRAYS = [
     ({"type": "array", "items": {"type": "integer"}}, [1, 2]),
     ({"type": "array", "items": {"type": "integer", "minimum": 1}, "minItems": 1, "maxItems": 3}, [1]),
@@ -175,7 +182,7 @@ def effective_security(doc):
     return []
 
 
-def make_operation_document(rng: random.Random, version: str, *, with_security=False, negative_friendly=False, composite=False):
+def make_operation_document(rng: random.Random, version: str, *, with_security=False, negative_friendly=False, composite=False, unquantified_atoms=False):
     """One operation `POST /op/{p}` (or GET without body) whose inputs are drawn from the pools.
 
     -> (doc, description) where description lists, per location, the declared parameters:
@@ -203,7 +210,7 @@ def make_operation_document(rng: random.Random, version: str, *, with_security=F
     if negative_friendly:
         path_pool = [s for s in PRIMITIVES if s[0].get("type") in ("integer", "number", "boolean")]
     else:
-        path_pool = [s for s in PRIMITIVES if not s[0].get("nullable")]
+        path_pool = [s for s in PRIMITIVES if not s[0].get("nullable")] + (UNQUANTIFIED_ATOMS if unquantified_atoms else [])
     schema, _ = rng.choice(path_pool)
     add("path", "p", schema, True)
     locations = [("query", ["q1", "q2", "q3"]), ("header", ["X-H1", "X-H2"])]
@@ -214,7 +221,7 @@ def make_operation_document(rng: random.Random, version: str, *, with_security=F
             if location == "query" and rng.random() < 0.3:
                 schema, _ = rng.choice(ARRAYS)
             else:
-                schema, _ = rng.choice([s for s in PRIMITIVES if three or not s[0].get("nullable") or location != "header"])
+                schema, _ = rng.choice([s for s in PRIMITIVES if three or not s[0].get("nullable") or location != "header"] + (UNQUANTIFIED_ATOMS if unquantified_atoms else []))
             if version == "2.0" and "$ref" in str(schema):
                 continue
             add(location, name, schema, rng.random() < 0.6)
